@@ -123,6 +123,7 @@ def run_table(name, prop, fn):
         r.add("%s/table#%s" % (label, clause), "valid" if ok else "refuted", backend="eval",
               witness=w, note=None if ok else str(detail)[:300])
     r.time = time.time() - t0
+    r.bounded = getattr(fn, "bounded", None)
     return r
 
 
